@@ -4,3 +4,10 @@ check("C01",
   "Every feasible path of the real Parser on sentences of <= N tokens whose kinds are z3 variables over all 31 token kinds, and of the real Scanner on strings of <= L symbolic characters, is explored (solver-decided forks); on each accepted path the AST / token list must equal the reference parser's / lexer's and the cursor must be at EOF. Exhaustive within the stated bounds, nothing beyond them.",
   "Trusted: reference grammar (vf/oracles/refparse.py) and reference lexer (ref_lex) written from the documented precedence table; z3; finite-domain propagation for token-kind variables is confirmed by z3 on every completed path and cross-checked on every 512th decision. Longer sentences are outside the claim.",
   "DESIGN.md section 4 C01")
+
+check("C02",
+  "bounded symbolic execution of the real Resolver + term-class operator overloads on ASTs whose variable names are z3 variables (aliasing decided by the solver), differential against a reference set algebra",
+  "model_checking",
+  "For every formula shape of the documented language within the size bound, the real Resolver and the operator overloads of Intercept/NegatedIntercept/Term/GroupSpecificTerm/Response/Model run on ASTs whose variable names are solver variables; each == between names is a z3-decided fork, so one path covers every naming with that aliasing pattern. The resulting response, common-term set and group-term set must equal the reference Wilkinson-Rogers/lme4 expansion; an exception for an in-language formula is a violation. Exhaustive within the stated bounds.",
+  "Trusted: the reference algebra (ref_T/ref_chain in vf/props/c02.py) written from the statement; z3. Scanner/Parser are bypassed (C01 covers them). One known finding (effect-side removal literal after a sum) is listed in known_findings.json.",
+  "DESIGN.md section 4 C02")
